@@ -28,6 +28,12 @@
 //! | "the identity permutation changes nothing" | `law:identity` at every state, and σ = id among the direct reorders | all states |
 //! | "fails instead of dropping or mis-keying" when the new first namespace lacks a name | `judge`: `Expect::Refuse` vs the real outcome (keys `reorder:missing-name:{not-refused,entry-dropped,mis-keyed}`), class / field / method level alone and combined; also two entries with one key (`reorder:collision:*`) | `rows`, `cross`, `collisions`, `wide` (each of 24 members in turn), `ns-names` |
 //! | quantifier "2..4 namespaces × all permutations" | floors: all N! permutations reached per N; every universe contributes judged transitions | |
+//! | every clause, on texts whose bytes are not characters | `judge` as above; universe `long-text` (k = 0..=300 [thorough 600] ASCII characters + a last character of 1 / 2 / 3 / 4 UTF-8 bytes as the second namespace's name, class / field / method / parameter name, every comment, an unmapped class in two descriptors; accepted, and refused at class / field / method level for a missing name and for a collision, so that the messages — which quote rows and keys — are built too; unknown target namespaces with such names in the non-permutation sweep) | N = 3 (thorough: 3, 4) |
+//! | every clause, on odd but legal values | `judge`; universe `odd-values` (classes `A$`, `Long` → `LLong;`, `x()V`, 3- and 4-byte names, `O1$I` / `O2$I`, each mapped or not; unmapped `B$`, `A$$`; 255 array dimensions; 255 parameters of a mapped class; a field, a method and parameters called like a class of the set; a method `m(`; parameter indices 255, 256, 65535, 65536, 2^32, usize::MAX) | N = 2, 3, 4 |
+//! | every clause, on names that are not UTF-8 | `judge` through `c08/jtext.rs` (builder and projection for lone surrogates U+D800, U+DBFF, U+DC00, U+DFFF; self-checked against `mapmodel`); universe `surrogates` (two mapped classes and one unmapped class that differ in the surrogate only; holder, field, method and parameter names with a surrogate first / last) | N = 2, 3, 4 |
+//! | "yields the same entries": nothing of one entry shows up in its neighbour | `judge`; universe `placement` (two classes × every arrangement of a field, a method without / with a parameter, a second method without / with a commented parameter; classes without members between and after them) | N = 2, 3, 4 |
+//! | "the identity permutation changes nothing … comments untouched" for the set without classes | `comments` (the class may be absent; floor: the set without classes keeps its comment) | N = 2, 3, 4 |
+//! | the target names the namespaces exactly | universes `ns-names` (prefixes, case variants), `ns-names-suffix` (suffixes), `ns-names-blank` (blanks around a name) | N = 2, 3, 4 |
 //!
 //! Not judged (the statement is silent): the order of the entries inside the result, which error is
 //! returned, targets that are not permutations, sets in which a class without entry shares a name
@@ -42,6 +48,9 @@ use quill::tree::mappings::Mappings;
 use rayon::prelude::*;
 use stateright::{Checker, Model, Property};
 use vcore::{json, Ctx, Stats, Value};
+
+#[path = "c08/jtext.rs"]
+mod jtext;
 
 // ---------------------------------------------------------------------------------------------
 // permutations: `p[i]` = old position of the namespace that stands at new position `i`
@@ -151,15 +160,28 @@ impl Real {
 	}
 }
 
+/// The real object for a set of the model. Sets whose names hold stand-ins for lone surrogates (universe
+/// `surrogates`) are built and projected by `jtext`, all others by `mapmodel` as ever.
+fn build<const N: usize>(set: &MSet, order: Order, java_text: bool) -> Mappings<N, ()> {
+	let q = if java_text { jtext::to_quill(set, order) } else { mapmodel::to_quill_ordered(set, order) };
+	q.unwrap_or_else(|e| vcore::machinery_fail(&format!("cannot build the real object: {e:#}\n{}", tiny::print(set))))
+}
+
+fn project<const N: usize>(q: &Mappings<N, ()>, java_text: bool) -> Real {
+	let m = if java_text { jtext::from_quill(q) } else { mapmodel::from_quill(q) };
+	match m {
+		Ok(m) => Real::Ok(m),
+		Err(k) => Real::MisKeyed(k.0),
+	}
+}
+
 fn real_n<const N: usize>(set: &MSet, target: &[String], order: Order) -> Real {
-	let q: Mappings<N, ()> = mapmodel::to_quill_ordered(set, order).unwrap_or_else(|e| vcore::machinery_fail(&format!("cannot build the real object: {e:#}")));
+	let java_text = jtext::uses_stand_ins(set);
+	let q: Mappings<N, ()> = build(set, order, java_text);
 	let t: Vec<&str> = target.iter().map(|s| s.as_str()).collect();
 	let t: [&str; N] = t.try_into().unwrap_or_else(|_| vcore::machinery_fail("target namespace count"));
 	match q.reorder::<()>(t) {
-		Ok(r) => match mapmodel::from_quill(&r) {
-			Ok(m) => Real::Ok(m),
-			Err(k) => Real::MisKeyed(k.0),
-		},
+		Ok(r) => project(&r, java_text),
 		Err(e) => Real::Refused(format!("{e:#}")),
 	}
 }
@@ -176,7 +198,8 @@ fn real(st: &mut Stats, set: &MSet, target: &[String], order: Order) -> Result<R
 }
 
 fn real_chain_n<const N: usize>(set: &MSet, targets: &[Vec<String>]) -> Real {
-	let mut q: Mappings<N, ()> = mapmodel::to_quill_ordered(set, Order::Sorted).unwrap_or_else(|e| vcore::machinery_fail(&format!("cannot build the real object: {e:#}")));
+	let java_text = jtext::uses_stand_ins(set);
+	let mut q: Mappings<N, ()> = build(set, Order::Sorted, java_text);
 	for target in targets {
 		let t: Vec<&str> = target.iter().map(|s| s.as_str()).collect();
 		let t: [&str; N] = t.try_into().unwrap_or_else(|_| vcore::machinery_fail("target namespace count"));
@@ -185,10 +208,7 @@ fn real_chain_n<const N: usize>(set: &MSet, targets: &[Vec<String>]) -> Real {
 			Err(e) => return Real::Refused(format!("{e:#}")),
 		};
 	}
-	match mapmodel::from_quill(&q) {
-		Ok(m) => Real::Ok(m),
-		Err(k) => Real::MisKeyed(k.0),
-	}
+	project(&q, java_text)
 }
 
 /// The real `Mappings::reorder` called on its own result, once per target, without rebuilding the
@@ -445,18 +465,55 @@ fn features(s: &MSet, sigma: &[u8]) -> BTreeSet<&'static str> {
 					out.insert("rekey:member-takes-the-old-key-of-a-sibling");
 				}
 			}
+			if s.classes.contains_key(name.as_str()) {
+				out.insert("odd:member-called-like-a-class-of-the-set");
+			}
+			if name.contains('(') {
+				out.insert("odd:method-name-with-a-parenthesis");
+			}
 			let mentioned = mentioned_classes(desc);
 			let mut simple: BTreeMap<&str, &str> = BTreeMap::new();
+			let mut inner: BTreeMap<&str, &str> = BTreeMap::new();
 			for (at, u) in mentioned.iter().enumerate() {
 				let Some(new) = class_names.get(u.as_str()).copied() else {
 					if u.starts_with("java/") {
 						out.insert("unmapped-mention:java-package");
+					}
+					if u.ends_with('$') {
+						out.insert("unmapped-mention:trailing-dollar");
+					}
+					if u.chars().any(|c| jtext::STAND_INS.iter().any(|(p, _)| *p == c)) {
+						out.insert("unmapped-mention:lone-surrogate");
 					}
 					continue;
 				};
 				if new == u {
 					out.insert("mapped-mention:one-name-in-both-namespaces");
 					continue;
+				}
+				if u.ends_with('$') {
+					out.insert("mapped-mention:trailing-dollar");
+				}
+				if u.starts_with('L') && u.len() > 1 {
+					out.insert("mapped-mention:name-starts-with-the-tag-letter");
+				}
+				if u.contains('(') && u.contains(')') {
+					out.insert("mapped-mention:parentheses-inside-the-name");
+				}
+				if u.chars().any(|c| c.len_utf8() == 3 && !jtext::STAND_INS.iter().any(|(p, _)| *p == c)) && at + 1 < mentioned.len() {
+					out.insert("mapped-mention:three-byte-character-before-another-class");
+				}
+				if u.chars().any(|c| c.len_utf8() == 4) && at + 1 < mentioned.len() {
+					out.insert("mapped-mention:four-byte-character-before-another-class");
+				}
+				if u.chars().any(|c| jtext::STAND_INS.iter().any(|(p, _)| *p == c)) {
+					out.insert("mapped-mention:lone-surrogate");
+				}
+				if desc.contains(&format!("{}L{u};", "[".repeat(255))) {
+					out.insert("mapped-mention:255-array-dimensions");
+				}
+				if mentioned.len() == 255 {
+					out.insert("mapped-mention:255-parameters");
 				}
 				if u.starts_with("java/") {
 					out.insert("mapped-mention:java-package");
@@ -477,6 +534,11 @@ fn features(s: &MSet, sigma: &[u8]) -> BTreeSet<&'static str> {
 				if simple.insert(simple_name, u.as_str()).is_some_and(|other| other != u.as_str()) {
 					out.insert("mapped-mention:one-simple-name-in-two-packages");
 				}
+				if let Some((_, inner_name)) = u.rsplit_once('$') {
+					if !inner_name.is_empty() && inner.insert(inner_name, u.as_str()).is_some_and(|other| other != u.as_str()) {
+						out.insert("mapped-mention:one-inner-name-in-two-outer-classes");
+					}
+				}
 			}
 		}
 		let mut index_rows: BTreeMap<usize, BTreeSet<&Row>> = BTreeMap::new();
@@ -488,6 +550,21 @@ fn features(s: &MSet, sigma: &[u8]) -> BTreeSet<&'static str> {
 		if index_rows.values().any(|rows| rows.len() > 1) {
 			out.insert("shared:parameter-index-in-two-methods");
 		}
+		if index_rows.keys().any(|i| *i > 65535) {
+			out.insert("odd:parameter-index-above-65535");
+		}
+		if index_rows.contains_key(&usize::MAX) {
+			out.insert("odd:largest-parameter-index");
+		}
+		// (in the order of the keys, which is the order the real object is built in)
+		let with_parameters: Vec<bool> = c.methods.values().map(|m| !m.params.is_empty()).collect();
+		if with_parameters.windows(2).any(|w| w[0] && !w[1]) {
+			out.insert("placement:method-without-parameters-after-one-with");
+		}
+	}
+	let with_members: Vec<bool> = s.classes.values().map(|c| !c.fields.is_empty() || !c.methods.is_empty()).collect();
+	if with_members.windows(2).any(|w| w[0] && !w[1]) {
+		out.insert("placement:class-without-members-after-one-with");
 	}
 	if key_rows.values().any(|rows| rows.len() > 1) {
 		out.insert("shared:member-key-in-two-classes");
@@ -496,14 +573,31 @@ fn features(s: &MSet, sigma: &[u8]) -> BTreeSet<&'static str> {
 }
 
 /// every feature `features` can report; each must be seen on a judged, successful reorder
-const FEATURES: [&str; 15] = [
+const FEATURES: [&str; 32] = [
 	"descriptor-changes:member-keeps-its-name",
 	"descriptor-changes:owner-keeps-its-name",
+	"mapped-mention:255-array-dimensions",
+	"mapped-mention:255-parameters",
+	"mapped-mention:four-byte-character-before-another-class",
+	"mapped-mention:lone-surrogate",
+	"mapped-mention:name-starts-with-the-tag-letter",
+	"mapped-mention:parentheses-inside-the-name",
+	"mapped-mention:three-byte-character-before-another-class",
+	"mapped-mention:trailing-dollar",
+	"odd:largest-parameter-index",
+	"odd:member-called-like-a-class-of-the-set",
+	"odd:method-name-with-a-parenthesis",
+	"odd:parameter-index-above-65535",
+	"placement:class-without-members-after-one-with",
+	"placement:method-without-parameters-after-one-with",
+	"unmapped-mention:lone-surrogate",
+	"unmapped-mention:trailing-dollar",
 	"mapped-mention:java-lang-object",
 	"mapped-mention:java-package",
 	"mapped-mention:named-like-a-descriptor-letter",
 	"mapped-mention:new-name-in-java-package",
 	"mapped-mention:non-ascii-before-another-class",
+	"mapped-mention:one-inner-name-in-two-outer-classes",
 	"mapped-mention:one-name-in-both-namespaces",
 	"mapped-mention:one-simple-name-in-two-packages",
 	"rekey:class-takes-the-old-key-of-another-class",
@@ -587,10 +681,18 @@ fn classify(e: &MSet, a: &MSet) -> (String, String) {
 // ---------------------------------------------------------------------------------------------
 // universes
 
+/// where the initial sets of a universe come from
+enum Source {
+	/// the product of the class variants (`mapmodel::gen`)
+	Product(Space),
+	/// `len` sets made one by one from their index (the index means the same in both tiers)
+	Listed { len: u64, make: Box<dyn Fn(u64) -> MSet + Send + Sync>, what: String },
+}
+
 struct Uni {
 	label: String,
 	n: usize,
-	space: Space,
+	source: Source,
 	top_doc: Option<String>,
 	gens: Vec<Perm>,
 	words: BTreeMap<Perm, Vec<u8>>,
@@ -610,19 +712,43 @@ impl Uni {
 		let n = space.ns.len();
 		let gens = generators(n, false);
 		let words = shortest_words(n, &gens);
-		Uni { label: format!("{label}/N={n}"), n, space, top_doc: top_doc.map(|s| s.to_owned()), gens, words }
+		Uni { label: format!("{label}/N={n}"), n, source: Source::Product(space), top_doc: top_doc.map(|s| s.to_owned()), gens, words }
+	}
+	/// sets made one by one (they bring their own comment of the whole set)
+	fn listed(label: &str, n: usize, len: u64, what: &str, make: Box<dyn Fn(u64) -> MSet + Send + Sync>) -> Uni {
+		let gens = generators(n, false);
+		let words = shortest_words(n, &gens);
+		Uni { label: format!("{label}/N={n}"), n, source: Source::Listed { len, make, what: what.to_owned() }, top_doc: None, gens, words }
 	}
 	fn extend_generators(&mut self) {
 		self.gens = generators(self.n, true);
 		self.words = shortest_words(self.n, &self.gens);
 	}
 	fn len(&self) -> u64 {
-		self.space.len()
+		match &self.source {
+			Source::Product(space) => space.len(),
+			Source::Listed { len, .. } => *len,
+		}
 	}
 	fn init(&self, idx: u64) -> MSet {
-		let mut s = self.space.nth(idx);
-		s.doc = self.top_doc.clone();
-		s
+		match &self.source {
+			Source::Product(space) => {
+				let mut s = space.nth(idx);
+				s.doc = self.top_doc.clone();
+				s
+			},
+			Source::Listed { make, .. } => make(idx),
+		}
+	}
+	/// the short label (without the namespace count)
+	fn family(&self) -> &str {
+		self.label.split('/').next().unwrap_or("")
+	}
+	fn describe(&self) -> Value {
+		match &self.source {
+			Source::Product(space) => json!({"label": self.label, "initial_sets": self.len(), "class_variants": space.dims(), "generators": self.gens}),
+			Source::Listed { len, what, .. } => json!({"label": self.label, "initial_sets": len, "listed": what, "generators": self.gens}),
+		}
 	}
 }
 
@@ -674,7 +800,7 @@ fn class(key: &str, optional: bool, rows: Vec<Row>, docs: Vec<Option<String>>, f
 	ClassU { key: key.into(), rows: uniq(rows), docs, fields, methods, optional }
 }
 
-fn universes(n: usize) -> Vec<Uni> {
+fn universes(n: usize, long_k: usize) -> Vec<Uni> {
 	let mut out = Vec::new();
 	let a = |j: usize| format!("a{j}");
 	let ab = |j: usize| format!("a{j}$b{j}");
@@ -750,14 +876,15 @@ fn universes(n: usize) -> Vec<Uni> {
 		class("B", true, vec![tail_full(n, &b), with_cell(tail_full(n, &b), 1, "a1"), with_cell(tail_full(n, &b), last, &format!("a{last}"))], no_doc(), vec![], vec![]),
 	], None));
 
-	// (d) comments at every level, parameters with and without names, parameter indices
+	// (d) comments at every level, parameters with and without names, parameter indices; the set without any class
+	//     has a comment of its own too
 	let mut last_only: Row = vec![None; n];
 	last_only[n - 1] = Some("q".to_owned());
 	let mut first_only: Row = vec![None; n];
 	first_only[0] = Some("p".to_owned());
 	let cls_doc = gen::docs(&[None, Some("class comment"), Some("two\nlines \\n ü")]);
 	out.push(Uni::new("comments", n, vec![
-		class("p/C", false, vec![tail_full(n, &pc), { let mut t = tail_full(n, &pc); t[n - 2] = None; t }], cls_doc,
+		class("p/C", true, vec![tail_full(n, &pc), { let mut t = tail_full(n, &pc); t[n - 2] = None; t }], cls_doc,
 			vec![field("f", "Lp/C;", vec![tail_full(n, &nm("f"))], gen::docs(&[None, Some("field comment")]))],
 			vec![method("m", "(ILp/C;)V", vec![tail_full(n, &nm("m"))], gen::docs(&[None, Some("method comment")]), vec![
 				ParamU { index: 0, rows: vec![vec![None; n], first_only, (0..n).map(|j| Some(format!("p{j}"))).collect()], docs: gen::docs(&[None, Some("parameter comment")]) },
@@ -857,14 +984,17 @@ fn universes(n: usize) -> Vec<Uni> {
 
 	// (i) a class with a dozen fields and methods (three parameters each); one member at a time lacks
 	//     its name in the last namespace, or gets the key of another one there
-	out.push(Uni::with_space("wide", wide_space(n), Some("wide")));
+	out.push(Uni::with_space("wide", wide_space(n), Some(" \twide\n")));
 
-	// (j) namespace names that are prefixes and case variants of each other
-	out.push(Uni::with_namespaces("ns-names", &["ab", "a", "AB", "abc"][..n], vec![
-		class("A", false, tails_all(n, &a), no_doc(),
-			vec![field("f", "[LA;", vec![tail_full(n, &nm("f"))], no_doc())],
-			vec![method("m", "(LA;)LA;", vec![tail_full(n, &nm("m"))], no_doc(), vec![ParamU { index: 2, rows: rows_all(n, &nm("p")), docs: no_doc() }])]),
-	], None));
+	// (j) namespace names that are prefixes and case variants of each other; that are suffixes of each other; that differ
+	//     in blanks around them only (a namespace is found by its exact name)
+	for (label, names) in [("ns-names", ["ab", "a", "AB", "abc"]), ("ns-names-suffix", ["xa", "a", "Xa", "bxa"]), ("ns-names-blank", [" a", "a", "a ", " a "])] {
+		out.push(Uni::with_namespaces(label, &names[..n], vec![
+			class("A", false, tails_all(n, &a), no_doc(),
+				vec![field("f", "[LA;", vec![tail_full(n, &nm("f"))], no_doc())],
+				vec![method("m", "(LA;)LA;", vec![tail_full(n, &nm("m"))], no_doc(), vec![ParamU { index: 2, rows: rows_all(n, &nm("p")), docs: no_doc() }])]),
+		], None));
+	}
 
 	// (k) members and classes called like the names other parts of the tool chain treat specially (constructors, static
 	//     initialisers, the placeholder names of the dummy filters): every subset of their names missing — a reorder
@@ -880,7 +1010,172 @@ fn universes(n: usize) -> Vec<Uni> {
 			]),
 		class("C_1", true, vec![tail_full(n, &same_m("C_1")), vec![None; n - 1]], no_doc(), vec![], vec![]),
 	], None));
+
+	// (l) odd but legal values (hand-listed): see `odd_space`
+	out.push(Uni::with_space("odd-values", odd_space(n), None));
+
+	// (m) names that are not UTF-8: lone surrogates (written as stand-ins inside the model, see c08/jtext.rs) in class,
+	//     field, method and parameter names and inside descriptors; two mapped classes and one unmapped class differ
+	//     in the surrogate only
+	let hi = jtext::STAND_INS[0].0;
+	let hi_last = jtext::STAND_INS[1].0;
+	let lo = jtext::STAND_INS[2].0;
+	let lo_last = jtext::STAND_INS[3].0;
+	out.push(Uni::new("surrogates", n, vec![
+		class(&format!("s{hi}"), true, vec![tail_full(n, &|j| format!("t{j}{hi}")), tail_full(n, &|j| format!("{lo}t{j}"))], no_doc(), vec![], vec![]),
+		class(&format!("s{lo}"), true, vec![tail_full(n, &|j| format!("t{j}{lo}"))], no_doc(), vec![], vec![]),
+		class(&format!("H{lo_last}"), false, vec![tail_full(n, &|j| format!("h{j}{lo_last}")), tail_full(n, &|_| format!("H{lo_last}"))], no_doc(),
+			vec![
+				field(&format!("f{hi}"), &format!("Ls{hi};"), vec![tail_full(n, &|j| format!("f{j}{lo}"))], no_doc()),
+				field("g", &format!("[Ls{lo};"), vec![tail_full(n, &nm("g"))], no_doc()),
+			],
+			vec![method(&format!("m{hi_last}"), &format!("(Ls{hi};Ls{hi_last};Ls{lo};)Lu{lo_last}v;"), vec![tail_full(n, &|j| format!("m{j}{hi_last}")), tail_full(n, &|_| format!("m{hi_last}"))], no_doc(),
+				vec![ParamU { index: 0, rows: vec![(0..n).map(|j| Some(format!("p{j}{lo_last}"))).collect(), (0..n).map(|j| if j == 0 { None } else { Some(format!("{hi}p{j}")) }).collect()], docs: no_doc() }])]),
+	], None));
+
+	// (n) placement: in two classes every arrangement of a field, a method without and with a parameter, a second method
+	//     without and with parameters; a third class without members before / after them (nothing of one entry may show
+	//     up in its neighbour, whatever is built first)
+	let placed = |key: &'static str, t: &'static str| -> ClassU {
+		let r = move |base: &'static str| move |j: usize| format!("{base}{t}{j}");
+		class(key, true, vec![tail_full(n, &r("c"))], no_doc(),
+			vec![field("f", "I", vec![tail_full(n, &r("f"))], no_doc())],
+			vec![
+				method("m1", "()V", vec![tail_full(n, &r("m"))], no_doc(), vec![ParamU { index: 0, rows: vec![(0..n).map(|j| Some(format!("p{t}{j}"))).collect()], docs: no_doc() }]),
+				method("m2", "(IJ)V", vec![tail_full(n, &r("n"))], no_doc(), vec![ParamU { index: 1, rows: vec![(0..n).map(|j| Some(format!("q{t}{j}"))).collect()], docs: gen::docs(&[Some(t)]) }]),
+			])
+	};
+	out.push(Uni::new("placement", n, vec![
+		placed("K1", "a"),
+		placed("K3", "b"),
+		class("K2", true, vec![tail_full(n, &nm("k"))], gen::docs(&[Some("between")]), vec![], vec![]),
+		class("K4", true, vec![tail_full(n, &nm("l"))], no_doc(), vec![], vec![]),
+	], None));
+
+	// (o) long texts with a last character of 1, 2, 3 and 4 bytes at every length, in accepted and in refused sets
+	if n >= 3 {
+		out.push(long_text_universe(n, long_k));
+	}
 	out
+}
+
+/// lengths of the ASCII run in front of the last character of the long texts: 0..=this
+const LONG_K_QUICK: usize = 300;
+const LONG_K_THOROUGH: usize = 600;
+const LONG_CHARS: [char; 4] = ['a', 'é', '€', '😀'];
+const LONG_SITUATIONS: [&str; 7] = ["accepted", "class-without-name", "field-without-name", "method-without-name", "class-collision", "field-collision", "method-collision"];
+
+/// Universe (o). The text T = k times `x` and one character of 1 / 2 / 3 / 4 bytes is the name of the second namespace
+/// (`i` + T), the name of a class (`q/` + T), of a field, of a method and of a parameter there, every comment, and the
+/// name of an unmapped class (`u/` + T) that two descriptors mention. Situations: everything has every name; the class /
+/// the field / the method has no name in the last namespace (making it the first one must fail: the message shows the
+/// row); a second class / field / method has the same name T in the second namespace (making that the first one must
+/// fail: the message shows the key). A message that is cut, padded or quoted at a byte position meets every position of
+/// the last character up to `k_max` + the length of what stands in front.
+fn long_text_universe(n: usize, k_max: usize) -> Uni {
+	let len = ((k_max + 1) * LONG_CHARS.len() * LONG_SITUATIONS.len()) as u64;
+	let what = format!("index = (k * {} + character) * {} + situation; k in 0..={k_max}; characters {:?}; situations {:?}", LONG_CHARS.len(), LONG_SITUATIONS.len(), LONG_CHARS, LONG_SITUATIONS);
+	Uni::listed("long-text", n, len, &what, Box::new(move |idx| long_text_set(n, idx)))
+}
+
+fn long_text_parts(idx: u64) -> (usize, char, usize) {
+	let sit = (idx % LONG_SITUATIONS.len() as u64) as usize;
+	let rest = idx / LONG_SITUATIONS.len() as u64;
+	(( rest / LONG_CHARS.len() as u64) as usize, LONG_CHARS[(rest % LONG_CHARS.len() as u64) as usize], sit)
+}
+
+fn long_text_set(n: usize, idx: u64) -> MSet {
+	let (k, ch, sit) = long_text_parts(idx);
+	let t = format!("{}{ch}", "x".repeat(k));
+	let last = n - 1;
+	// T in the second namespace, short names elsewhere; `hole`: no name in the last namespace
+	let row = |first: &str, hole: bool, prefix: &str| -> Row {
+		(0..n).map(|j| match j {
+			0 => Some(first.to_owned()),
+			1 => Some(format!("{prefix}{t}")),
+			_ if j == last && hole => None,
+			_ => Some(format!("{first}{j}")),
+		}).collect()
+	};
+	let mut ns: Vec<String> = ["official", "intermediary", "named", "extra"][..n].iter().map(|s| s.to_string()).collect();
+	ns[1] = format!("i{t}");
+	let doc = Some(t.clone());
+	let method_desc = format!("(Lp/K;Lu/{t};)V");
+	let mut k_class = MClass { names: row("p/K", sit == 1, "q/"), doc: doc.clone(), fields: BTreeMap::new(), methods: BTreeMap::new() };
+	k_class.fields.insert(("f".to_owned(), "Lp/K;".to_owned()), MField { names: row("f", sit == 2, ""), doc: doc.clone() });
+	k_class.fields.insert(("g".to_owned(), format!("[Lu/{t};")), MField { names: (0..n).map(|j| Some(if j == 0 { "g".to_owned() } else { format!("g{j}") })).collect(), doc: None });
+	let mut params = BTreeMap::new();
+	params.insert(0, MParam { names: (0..n).map(|j| match j { 0 => None, 1 => Some(t.clone()), _ => Some(format!("p{j}")) }).collect(), doc: doc.clone() });
+	params.insert(1, MParam { names: vec![None; n], doc: doc.clone() });
+	k_class.methods.insert(("m".to_owned(), method_desc.clone()), MMethod { names: row("m", sit == 3, ""), doc: doc.clone(), params });
+	if sit == 5 {
+		k_class.fields.insert(("h".to_owned(), "Lp/K;".to_owned()), MField { names: row("h", false, ""), doc: None });
+	}
+	if sit == 6 {
+		k_class.methods.insert(("o".to_owned(), method_desc), MMethod { names: row("o", false, ""), doc: None, params: BTreeMap::new() });
+	}
+	let mut set = MSet { ns, doc, classes: BTreeMap::new() };
+	set.classes.insert("p/K".to_owned(), k_class);
+	if sit == 4 {
+		set.classes.insert("p/M".to_owned(), MClass { names: row("p/M", false, "q/"), doc: None, fields: BTreeMap::new(), methods: BTreeMap::new() });
+	}
+	set
+}
+
+/// Universe (l), hand-listed: classes called `A$` (trailing dollar), `Long` (its descriptor `LLong;` starts with two tag
+/// letters), `x()V` (parentheses and a return letter inside a name), a name of 3-byte and one of 4-byte characters —
+/// each with or without an entry (mapped / unmapped); descriptors with 255 array dimensions and with 255 parameters of a
+/// mapped class; unmapped classes `B$` and `A$$`; a field, a method and parameters called like a class of the set; a
+/// method called `m(`; parameter indices 255, 256, 65535, 65536, 2^32 and the largest one; two inner classes with one
+/// simple name in two outer classes (`O1$I`, `O2$I`); an unmapped class `long` next to the mapped `Long`; names with
+/// blanks in front and behind.
+fn odd_space(n: usize) -> Space {
+	let ns: Vec<String> = ["official", "intermediary", "named", "extra"][..n].iter().map(|s| s.to_string()).collect();
+	let full = |f: &dyn Fn(usize) -> String| -> Row { (0..n).map(|j| Some(f(j))).collect() };
+	let entry = |key: &str, f: &dyn Fn(usize) -> String| -> Vec<Option<MClass>> {
+		let key = key.to_owned();
+		vec![None, Some(MClass { names: full(&|j| if j == 0 { key.clone() } else { f(j) }), doc: None, fields: BTreeMap::new(), methods: BTreeMap::new() })]
+	};
+	let l_names = ["Long", "LLong", "Lo", "LL"];
+	let keys: Vec<String> = ["A$", "Long", "x()V", "€/Ω€", "😀", "O1$I", "O2$I", "H"].iter().map(|s| s.to_string()).collect();
+	let mut variants = vec![
+		entry("A$", &|j| format!("a{j}$")),
+		entry("Long", &|j| l_names[j].to_owned()),
+		entry("x()V", &|j| format!(" y{j}()V ")),
+		entry("€/Ω€", &|j| format!("€{j}/€")),
+		entry("😀", &|j| format!("😀{j}😀")),
+		entry("O1$I", &|j| format!("o{j}$I")),
+		entry("O2$I", &|j| format!("r{j}$I")),
+	];
+	let indices: [usize; 6] = [255, 256, 65535, 65536, 1 << 32, usize::MAX];
+	let mut holders = Vec::new();
+	for holder_same in [false, true] {
+		for members_same in [false, true] {
+			let member = |name: &str, base: &str| -> Row { full(&|j| if j == 0 || members_same { name.to_owned() } else { format!("{base}{j}") }) };
+			let mut h = MClass { names: full(&|j| if j == 0 || holder_same { "H".to_owned() } else { format!("h{j}") }), doc: None, fields: BTreeMap::new(), methods: BTreeMap::new() };
+			for (name, desc, base) in [
+				("Long", "LLong;".to_owned(), "f"),
+				("d255", format!("{}LA$;", "[".repeat(255)), "d"),
+				("u", "[LB$;".to_owned(), "u"),
+				("v", "LA$$;".to_owned(), "v"),
+				("w", "L😀;".to_owned(), "w"),
+				("x", "[LO2$I;".to_owned(), "x"),
+				("y", "Llong;".to_owned(), "y "),
+			] {
+				h.fields.insert((name.to_owned(), desc), MField { names: member(name, base), doc: None });
+			}
+			let params = |named_like_a_class: bool| -> BTreeMap<usize, MParam> {
+				indices.iter().enumerate().map(|(at, i)| (*i, MParam { names: full(&|j| if named_like_a_class && at % 2 == 0 { "Long".to_owned() } else { format!("p{at}x{j}") }), doc: None })).collect()
+			};
+			h.methods.insert(("i".to_owned(), "(LO1$I;LO2$I;)LO1$I;".to_owned()), MMethod { names: member("i", "i"), doc: None, params: BTreeMap::new() });
+			h.methods.insert(("m(".to_owned(), "(L😀;L€/Ω€;LA$;I)Lx()V;".to_owned()), MMethod { names: member("m(", "m("), doc: None, params: params(false) });
+			h.methods.insert(("Long".to_owned(), "(LLong;[[LLong;)V".to_owned()), MMethod { names: member("Long", "n"), doc: None, params: params(true) });
+			h.methods.insert(("k255".to_owned(), format!("({})V", "LA$;".repeat(255))), MMethod { names: member("k255", "k"), doc: None, params: BTreeMap::new() });
+			holders.push(Some(h));
+		}
+	}
+	variants.push(holders);
+	Space { ns, keys, variants }
 }
 
 const WIDE: usize = 12;
@@ -891,10 +1186,15 @@ fn wide_space(n: usize) -> Space {
 	let full = |base: String| -> Row { (0..n).map(|j| Some(if j == 0 { base.clone() } else { format!("{base}_{j}") })).collect() };
 	let field_desc = |i: usize| ["I", "LW;", "[LW;", "Lu/U;"][i % 4].to_owned();
 	let method_desc = |i: usize| ["(IJ)V", "(LW;I)LW;", "([LW;Lu/U;)V", "(Lu/U;D)[Lu/U;"][i % 4].to_owned();
-	let mut base = MClass { names: full("W".to_owned()), doc: Some("wide class".to_owned()), fields: BTreeMap::new(), methods: BTreeMap::new() };
+	let mut base = MClass { names: full("W".to_owned()), doc: Some("\twide class \n".to_owned()), fields: BTreeMap::new(), methods: BTreeMap::new() };
 	for i in 0..WIDE {
-		// comments: none, a text, the empty text; parameter indices 0, 3 and 256
-		let doc = |k: usize, text: String| match k % 3 { 0 => None, 1 => Some(text), _ => Some(String::new()) };
+		// comments: none, a text (plain, with blanks / tabs / line breaks in front or behind: nothing is trimmed), the empty
+		// text; parameter indices 0, 3 and 256
+		let doc = |k: usize, text: String| match k % 3 {
+			0 => None,
+			1 => Some(match (k / 3) % 4 { 0 => text, 1 => format!(" \t{text}"), 2 => format!("{text} \t"), _ => format!("\n{text}\n\n") }),
+			_ => Some(String::new()),
+		};
 		base.fields.insert((format!("f{i}"), field_desc(i)), MField { names: full(format!("f{i}")), doc: doc(i + 1, format!("field {i}")) });
 		let params = (0..3).map(|p| ([0, 3, 256][p], MParam { names: full(format!("p{i}x{p}")), doc: doc(p, format!("parameter {p} of {i}")) })).collect();
 		base.methods.insert((format!("m{i}"), method_desc(i)), MMethod { names: full(format!("m{i}")), doc: doc(i, format!("method {i}")), params });
@@ -922,26 +1222,31 @@ fn wide_space(n: usize) -> Space {
 	Space { ns, keys: vec!["W".to_owned(), "u/U".to_owned()], variants: vec![w, vec![None, Some(u)]] }
 }
 
-/// thorough: everything; quick: without the three largest universes with 4 namespaces
+/// thorough: everything; quick: without the largest universes with 4 namespaces and with shorter long texts
 fn all_universes(tier: vcore::Tier) -> Vec<Uni> {
-	let mut out: Vec<Uni> = [2, 3, 4].iter().flat_map(|&n| universes(n)).collect();
-	if tier == vcore::Tier::Quick {
-		out.retain(|u| quick_namespace_counts(u.label.split('/').next().unwrap_or("")).contains(&u.n));
-	} else {
+	let long_k = tier.pick(LONG_K_QUICK, LONG_K_THOROUGH);
+	let mut out: Vec<Uni> = [2, 3, 4].iter().flat_map(|&n| universes(n, long_k)).collect();
+	out.retain(|u| namespace_counts(u.family(), tier).contains(&u.n));
+	if tier == vcore::Tier::Thorough {
 		out.iter_mut().for_each(|u| u.extend_generators());
 	}
 	out
 }
 
-fn quick_namespace_counts(label: &str) -> &'static [usize] {
-	match label {
-		"rows" | "cross" | "names-all" => &[2, 3],
+fn namespace_counts(label: &str, tier: vcore::Tier) -> &'static [usize] {
+	match (label, tier) {
+		("long-text", vcore::Tier::Quick) => &[3],
+		("long-text", vcore::Tier::Thorough) => &[3, 4],
+		("rows" | "cross" | "names-all", vcore::Tier::Quick) => &[2, 3],
 		_ => &[2, 3, 4],
 	}
 }
 
 /// labels of the universes, in the order of `universes`
-const UNIVERSE_LABELS: [&str; 14] = ["rows", "descriptors", "cross", "collisions", "comments", "edge", "names-jdk", "names-unicode", "names-all", "overloads", "shared", "wide", "ns-names", "special-names"];
+const UNIVERSE_LABELS: [&str; 20] = [
+	"rows", "descriptors", "cross", "collisions", "comments", "edge", "names-jdk", "names-unicode", "names-all", "overloads", "shared", "wide", "ns-names",
+	"ns-names-suffix", "ns-names-blank", "special-names", "odd-values", "surrogates", "placement", "long-text",
+];
 
 // ---------------------------------------------------------------------------------------------
 // judging
@@ -994,8 +1299,12 @@ fn judge(env: &Env, st: &mut Stats, tag: &str, cur: &MSet, sigma: &[u8], replay:
 		format!("input of the last call:\n{}expected {}\nactual {}\n", tiny::print(cur), e, r.render())
 	};
 	match (&expect, &real) {
-		(Expect::Refuse(reasons), Real::Refused(_)) => {
+		(Expect::Refuse(reasons), Real::Refused(message)) => {
 			st.outcome(&format!("{tag}:refused:{}", reasons_text(reasons)));
+			st.outcome(&format!("refused-in:{}:{}", env.uni.family(), reasons_text(reasons)));
+			if message.len() >= 150 {
+				st.outcome(&format!("refused-in:{}:message-of-150-bytes-or-more", env.uni.family()));
+			}
 			let tag = if reasons.len() == 1 { format!("refused:{}", reasons_text(reasons)) } else { "refused:several-reasons".to_owned() };
 			st.sample(&tag, || json!({"kind": "refusal", "input": tiny::print(cur), "target_namespaces": target, "reasons": reasons_text(reasons), "real": real.render()}));
 			None
@@ -1033,6 +1342,9 @@ fn judge(env: &Env, st: &mut Stats, tag: &str, cur: &MSet, sigma: &[u8], replay:
 				let (k, what) = classify(e, r);
 				env.ctx.diff(&format!("reorder:{k}"), &format!("result differs from the faithful permutation: {what}"), || replay(&render(&expect, &real)));
 				return None;
+			}
+			if r.classes.is_empty() && cur.doc.is_some() && r.doc == cur.doc {
+				st.outcome("ok:set-without-classes-keeps-its-comment");
 			}
 			Some(r.clone())
 		},
@@ -1083,6 +1395,7 @@ fn step(env: &Env, st: &mut Stats, last: &St, g: usize) -> Option<St> {
 		st.outcome("step:judged:descriptor-mentions-an-unmapped-inner-class-of-a-mapped-class");
 	}
 	let r = judge(env, st, "step", &last.set, sigma, &replay)?;
+	st.outcome(&format!("ok-in:{}", uni.family()));
 	for f in features(&last.set, sigma) {
 		st.outcome(&format!("feature:{f}"));
 	}
@@ -1245,8 +1558,15 @@ fn run_chunk(ctx: &'static Ctx, uni: &Arc<Uni>, from: u64, to: u64) -> ChunkResu
 fn non_permutation_sweep(ctx: &Ctx, uni: &Uni) -> Stats {
 	let n = uni.n;
 	let total = (n as u64 + 1).pow(n as u32);
+	let long_text = uni.family() == "long-text";
 	(0..uni.len()).into_par_iter().fold(Stats::new, |mut st, idx| {
+		if long_text && long_text_parts(idx).2 != 0 {
+			// the message about an unknown namespace shows the namespaces only: one situation is enough
+			return st;
+		}
 		let set = uni.init(idx);
+		// (long texts: the unknown name is long too and ends in the same character)
+		let unknown = if long_text { format!("?{}", set.ns[1]) } else { "unknown".to_owned() };
 		vcore::watched(|| format!("universe={}\ninit={}\nnon-permutation targets", uni.label, idx), || {
 			for t in 0..total {
 				let digits = vcore::enumerate::product_nth(&vec![n + 1; n], t);
@@ -1254,9 +1574,12 @@ fn non_permutation_sweep(ctx: &Ctx, uni: &Uni) -> Stats {
 				if digits.iter().all(|d| *d < n && seen.insert(*d)) {
 					continue;
 				}
-				let target: Vec<String> = digits.iter().map(|&d| if d < n { set.ns[d].clone() } else { "unknown".to_owned() }).collect();
+				let target: Vec<String> = digits.iter().map(|&d| if d < n { set.ns[d].clone() } else { unknown.clone() }).collect();
 				match real(&mut st, &set, &target, Order::Sorted) {
-					Ok(r) => st.outcome(&format!("non-permutation:{}", r.kind())),
+					Ok(r) => {
+						st.outcome(&format!("non-permutation:{}", r.kind()));
+						st.outcome(&format!("non-permutation-in:{}", uni.family()));
+					},
 					Err(p) => ctx.diff(&format!("panic@{}", p.file()), &format!("reorder panicked at {}: {}", p.site, p.msg), || format!("universe={}\ninit={}\ntarget={:?}\ninitial set:\n{}", uni.label, idx, target, tiny::print(&set))),
 				}
 			}
@@ -1275,6 +1598,18 @@ fn main() {
 		replay(ctx, &path);
 	}
 	let unis: Vec<Arc<Uni>> = all_universes(ctx.tier).into_iter().map(Arc::new).collect();
+	// machinery self-check of the builder for names that are not UTF-8 (exit 2 on failure)
+	let mut not_utf8 = 0u64;
+	for u in unis.iter().filter(|u| u.family() == "surrogates") {
+		let plain = unis.iter().find(|p| p.family() == "shared" && p.n == u.n).unwrap_or_else(|| vcore::machinery_fail("no universe `shared` for the self-check"));
+		let (a, b) = (plain.init(plain.len() - 1), u.init(u.len() - 1));
+		not_utf8 += match u.n {
+			2 => jtext::self_check::<2>(&a, &b),
+			3 => jtext::self_check::<3>(&a, &b),
+			4 => jtext::self_check::<4>(&a, &b),
+			n => vcore::machinery_fail(&format!("unsupported namespace count {n}")),
+		};
+	}
 	const CHUNK: u64 = 128;
 	let mut jobs: Vec<(usize, u64, u64)> = Vec::new();
 	for (ui, u) in unis.iter().enumerate() {
@@ -1295,7 +1630,7 @@ fn main() {
 		stats = stats.merge(r.stats);
 	}
 	let mut sweep = Stats::new();
-	for u in unis.iter().filter(|u| u.label.starts_with("edge") || u.label.starts_with("collisions")) {
+	for u in unis.iter().filter(|u| matches!(u.family(), "edge" | "collisions" | "long-text" | "surrogates")) {
 		sweep = sweep.merge(non_permutation_sweep(ctx, u));
 	}
 
@@ -1324,22 +1659,35 @@ fn main() {
 		ctx.floor(&format!("judged transitions in universe {}", u.label), 1, stats.get(&format!("judged-transitions:{}", u.label)));
 	}
 	for label in UNIVERSE_LABELS {
-		ctx.floor(&format!("namespace counts explored with universe {label}"), ctx.tier.pick(quick_namespace_counts(label).len() as u64, 3), unis.iter().filter(|u| u.label.starts_with(&format!("{label}/"))).count() as u64);
+		ctx.floor(&format!("namespace counts explored with universe {label}"), namespace_counts(label, ctx.tier).len() as u64, unis.iter().filter(|u| u.family() == label).count() as u64);
 	}
 	// the mechanisms the universes (f)-(j) aim at were met by successful, judged reorders that change the first namespace
 	for f in FEATURES {
 		ctx.floor(&format!("successful judged transitions with feature {f}"), 1, stats.get(&format!("feature:{f}")));
 	}
 	ctx.floor("chains replayed on the real objects without rebuilding them", 1, stats.get("law:live-chain:holds"));
+	// long texts: every (length, last character) was accepted and was refused for every reason; the refusal quotes the text
+	let long_k = ctx.tier.pick(LONG_K_QUICK, LONG_K_THOROUGH);
+	let long_texts = ((long_k + 1) * LONG_CHARS.len()) as u64;
+	ctx.floor("successful judged transitions on sets with long texts", long_texts, stats.get("ok-in:long-text"));
+	for reason in &LONG_SITUATIONS[1..] {
+		ctx.floor(&format!("refusals of sets with long texts solely because of {reason}"), long_texts, stats.get(&format!("refused-in:long-text:{reason}")));
+	}
+	ctx.floor("refusals of sets with long texts whose message has 150 bytes or more", long_texts, stats.get("refused-in:long-text:message-of-150-bytes-or-more"));
+	ctx.floor("non-permutation targets on sets with long namespace names", long_texts, sweep.get("non-permutation-in:long-text"));
+	ctx.floor("non-permutation targets on sets with names that are not UTF-8", 1, sweep.get("non-permutation-in:surrogates"));
+	ctx.floor("names that are not UTF-8 in the real objects of the builder's self-check", 1, not_utf8);
+	ctx.floor("sets without classes that keep their comment", 1, stats.get("ok:set-without-classes-keeps-its-comment"));
 	if ctx.tier == vcore::Tier::Thorough {
 		ctx.floor("every permutation judged from every non-initial state", sum(&|k| k.starts_with("law:path-independence:")) * 2, stats.get("direct-from-state:judged"));
 	}
 	ctx.floor("every non-initial state was put to the live chain", sum(&|k| k.starts_with("law:path-independence:")), sum(&|k| k.starts_with("law:live-chain:")));
 
-	let outcomes: BTreeMap<&String, &u64> = stats.outcomes.iter().filter(|(k, _)| !k.starts_with("reached:") && !k.starts_with("feature:") && !k.starts_with("judged-transitions:")).collect();
+	let outcomes: BTreeMap<&String, &u64> = stats.outcomes.iter().filter(|(k, _)| !k.starts_with("reached:") && !k.starts_with("feature:") && !k.starts_with("judged-transitions:") && !k.starts_with("ok-in:") && !k.starts_with("refused-in:")).collect();
+	let per_universe = |prefix: &str| -> BTreeMap<String, u64> { stats.outcomes.iter().filter_map(|(k, v)| k.strip_prefix(prefix).map(|k| (k.to_owned(), *v))).collect() };
 	let features_seen: BTreeMap<&str, u64> = FEATURES.iter().map(|f| (*f, stats.get(&format!("feature:{f}")))).collect();
 	let judged_per_universe: BTreeMap<&str, u64> = unis.iter().map(|u| (u.label.as_str(), stats.get(&format!("judged-transitions:{}", u.label)))).collect();
-	let universes_json: Vec<Value> = unis.iter().map(|u| json!({"label": u.label, "initial_sets": u.len(), "class_variants": u.space.dims(), "generators": u.gens})).collect();
+	let universes_json: Vec<Value> = unis.iter().map(|u| u.describe()).collect();
 	let coverage = json!({
 		"states": states,
 		"transitions": transitions,
@@ -1359,15 +1707,23 @@ fn main() {
 			"live_chain": "for every non-initial state the shortest word is replayed on the real objects themselves (each reorder on the result of the previous one)",
 			"class_name_shapes": ["one letter", "inner (A$B)", "packaged", "java/ package (old and new first namespace)", "java/lang/Object", "named L / containing descriptor letters", "non-ASCII", "one simple name in two packages", "one name in every namespace"],
 			"wide_class": {"fields": WIDE, "methods": WIDE, "parameters_per_method": 3},
+			"long_texts": {"ascii_run_lengths": format!("0..={long_k}"), "last_characters": LONG_CHARS, "utf8_bytes_of_the_last_character": [1, 2, 3, 4], "situations": LONG_SITUATIONS, "slots": ["second namespace name", "class name", "field name", "method name", "parameter name", "every comment", "unmapped class in two descriptors", "unknown target namespace"]},
+			"odd_values": {"parameter_indices": ["255", "256", "65535", "65536", "2^32", "usize::MAX"], "array_dimensions": 255, "parameters_of_a_mapped_class": 255, "class_names": ["A$", "Long", "x()V (other names with blanks around)", "€/Ω€", "😀", "O1$I and O2$I", "unmapped B$", "unmapped A$$", "unmapped long"], "member_names": ["Long (a class of the set)", "m("]},
+			"lone_surrogates": ["U+D800", "U+DBFF", "U+DC00", "U+DFFF"],
+			"namespace_name_lists": [["ab", "a", "AB", "abc"], ["xa", "a", "Xa", "bxa"], [" a", "a", "a ", " a "]],
 		},
 		"outcomes": outcomes,
 		"permutations_reached": reached,
 		"features_on_successful_judged_transitions": features_seen,
 		"judged_transitions_per_universe": judged_per_universe,
+		"successful_transitions_per_universe_family": per_universe("ok-in:"),
+		"refusals_per_universe_family": per_universe("refused-in:"),
+		"names_not_utf8_in_self_check": not_utf8,
 		"non_permutation_sweep": {"evaluations": sweep.evaluations, "outcomes": sweep.outcomes},
 	});
 	ctx.finish(coverage, &[
-		"a class that a descriptor mentions without being an entry keeps its name in every namespace; sets where such a name equals a name of an entry (two classes with one name), or is an inner class of one, are outside the statement and explored for panics only",
+		"a class that a descriptor mentions without being an entry keeps its name in every namespace (also when it is named like an inner class of an entry); sets where such a name equals a name of an entry (two classes with one name) are outside the statement and explored for panics only",
+		"a Java name may hold a lone surrogate (modified UTF-8 of class files, JavaString in quill); inside the reference model four private-use characters stand for four lone surrogates and are translated at the border to the real objects",
 		"two entries that get the same key cannot both be kept, so Ok is not accepted there; which error is returned is not judged",
 		"the order of the entries inside the result is not judged (the statement does not mention it); the result must not depend on the insertion order of the input",
 		"parameters are keyed by index: a parameter without a name in the new first namespace is not a reason to fail",
